@@ -31,5 +31,5 @@ for nph, th in [(0, False), (2, False), ("1R", False)]:
 ASSUMPTIONS = ["independently drawn nonces do not collide (assumed for the pairwise-different clause)", "ideal AEAD", "the server branch that builds the reply (runIPServer) is represented by the same calls it makes: EncryptWithNonce/Encode per requested cookie, NewResponsePacket, EncodePacket"]
 EXPLANATION = ""
 CLAIMED = True
-LEVEL_TEXT = "Bounded model checking / symbolic execution of the real client and server packet-building code at every explored pool level (1, 2, 3, 8; thorough 5) with cookies produced by the real server-side cookie code (124 bytes): one cookie field = first pooled cookie, 8-L fields typed as placeholders, encoded size vs. MaxPacketLen, pool arithmetic (pop on fetch, append on store, loss-free = 8), reply with n fresh cookies authenticates and is stored."
-LEVEL_NOTE = "ideal AEAD; lengths are concrete so most obligations fold during execution (the symbolic part is the key/cookie content); the server branch is represented by the calls it makes, not by runIPServer itself; two known findings (request at pool level 1 and 8-cookie reply exceed MaxPacketLen) are listed in known_findings.txt."
+LEVEL_TEXT = "Bounded model checking / symbolic execution of the real client and server packet-building code at every explored pool level (1, 2, 3, 8; thorough 5) with cookies produced by the real server-side cookie code (124 bytes): one cookie field = first pooled cookie, 8-L fields typed as placeholders, encoded size vs. MaxPacketLen, pool arithmetic (pop on fetch, append on store, loss-free = 8), reply with n fresh cookies authenticates and is stored; the real IP listener (runIPServer) answering one authenticated request built by the real client code: exactly one reply, authenticated for the requester, one fresh cookie per cookie/placeholder, pairwise different, each opening under a currently valid server key to the session keys - also when the server key rotates between issue and use of the cookie."
+LEVEL_NOTE = "ideal AEAD; lengths are concrete so most obligations fold during execution (the symbolic part is the key/cookie content); the server side is the real runIPServer against an adversary socket (harnesses server0/server2/server1R, replayed on loopback), one request per run; two known findings (request at pool level 1 and 8-cookie reply exceed MaxPacketLen) are listed in known_findings.txt."
